@@ -284,7 +284,9 @@ def concrete(case):
                 probs.append('the root file does not load as what it holds')
             with open(p + '.tmp', 'wb') as fo:
                 fo.write(CC.ref_canon(d2))
+            st0 = os.stat(p)
             os.replace(p + '.tmp', p)
+            os.utime(p, ns=(st0.st_atime_ns, st0.st_mtime_ns + 1000000))      # strictly later, as in the file-system stub
             oc = CC.outcome_of(C.load_metadata_from_file, p)
             if oc['kind'] != 'ret':
                 probs.append(f'loading the replaced root file raised {oc["cls"]}')
@@ -315,7 +317,7 @@ def concrete(case):
                 st = os.stat(p)
                 os.replace(tmp, p)
                 try:
-                    os.utime(p, ns=(st.st_atime_ns, st.st_mtime_ns))     # a replacement within the timestamp granularity
+                    os.utime(p, ns=(st.st_atime_ns, st.st_mtime_ns + 1000000))     # strictly later, as in the file-system stub
                 except Exception:
                     pass
                 try:
